@@ -1,5 +1,5 @@
 """C17 - live aircraft table: robust, correct positions, bounded staleness."""
-from vc.api import (harness, contract, repo, outcome, assume, new_object, property_level, abstract_int, opaque,
+from vc.api import (harness, contract, repo, outcome, assume, new_object, property_level, abstract_int, abstract_real, opaque,
                     bits_of, hex_of_bits, BinStr, HexStr, IntRange, RealRange, Choice, Domain, NATIVE_ABSTRACT,
                     NATIVE_OPAQUE)
 from spec import F
@@ -9,10 +9,12 @@ DEC = repo("pyModeS.streamer.decode")
 ADSB = repo("pyModeS.decoder.adsb")
 D = "pyModeS.streamer.decode.Decode."
 
-property_level("C17", "other", "robustness, staleness, Comm-B gating and case-insensitivity are discharged deductively for "
-               "histories of up to three messages of arbitrary content (an induction step over one call from an "
-               "arbitrary table is not attempted); the 0.001-degree accuracy clause over trajectories is only simulated "
-               "(bounded)")
+property_level("C17", "other", "robustness, staleness, Comm-B gating, canonical keys and the plumbing of stored positions are "
+               "discharged deductively by induction over the history (record invariant: base + one-call step from an "
+               "arbitrary record, for ADS-B messages of every type code and Comm-B replies of every inference class); "
+               "the induction principle itself and the kinematic argument that a 600-kt trajectory keeps the "
+               "preconditions of C03-C05 are not machine-checked, and the 0.001-degree accuracy clause end to end is only "
+               "simulated (bounded)")
 
 ADDR = {"A": "101010111100110111101111", "B": "000000010010001101000101"}     # ABCDEF, 012345
 
@@ -29,17 +31,27 @@ def commb_frame(addr, df21, head, mb, case):
 
 def position_abstract(msg0, msg1, t0, t1, lat_ref=None, lon_ref=None):
     """what process_raw needs to know about adsb.position (proved in C03 / C05): it raises RuntimeError,
-    returns None, or returns a (lat, lon) pair"""
+    returns None, or returns a (lat, lon) pair of real numbers"""
     k = abstract_int("position_outcome", 0, 2, msg0, msg1, t0, t1)
     if k == 0:
         raise RuntimeError("inconsistent pair")
     if k == 1:
         return None
-    return (opaque("position.lat", msg0, msg1, t0, t1), opaque("position.lon", msg0, msg1, t0, t1))
+    return (abstract_real("position.lat", -91, 91, msg0, msg1, t0, t1),
+            abstract_real("position.lon", -361, 721, msg0, msg1, t0, t1))
 
 
 def position_with_ref_abstract(msg, lat_ref, lon_ref):
-    return (opaque("position_with_ref.lat", msg, lat_ref, lon_ref), opaque("position_with_ref.lon", msg, lat_ref, lon_ref))
+    """adsb.position_with_ref on a TC5-18 / 20-22 frame with numeric references returns a pair of real numbers
+    (C04: within one quantisation step of a position half a zone from the reference); other type codes raise
+    RuntimeError (C04 / C14 dispatch obligation) - process_raw only calls it for TC5-18"""
+    tc = F.tc_of(F.hexbits(msg))
+    if tc is None or not (5 <= tc and tc <= 22 and tc != 19):
+        raise RuntimeError("not a position message")
+    if lat_ref is None or lon_ref is None:
+        raise TypeError("reference position is None")
+    return (abstract_real("position_with_ref.lat", -1000, 1000, msg, lat_ref, lon_ref),
+            abstract_real("position_with_ref.lon", -1000, 1000, msg, lat_ref, lon_ref))
 
 
 def _n_pos(msg0, msg1, t0, t1):
@@ -51,10 +63,10 @@ def _n_pos(msg0, msg1, t0, t1):
 
 
 NATIVE_ABSTRACT["position_outcome"] = _n_pos
-NATIVE_OPAQUE["position.lat"] = lambda m0, m1, t0, t1: ADSB.position(m0, m1, t0, t1)[0]
-NATIVE_OPAQUE["position.lon"] = lambda m0, m1, t0, t1: ADSB.position(m0, m1, t0, t1)[1]
-NATIVE_OPAQUE["position_with_ref.lat"] = lambda m, a, b: ADSB.position_with_ref(m, a, b)[0]
-NATIVE_OPAQUE["position_with_ref.lon"] = lambda m, a, b: ADSB.position_with_ref(m, a, b)[1]
+NATIVE_ABSTRACT["position.lat"] = lambda m0, m1, t0, t1: ADSB.position(m0, m1, t0, t1)[0]
+NATIVE_ABSTRACT["position.lon"] = lambda m0, m1, t0, t1: ADSB.position(m0, m1, t0, t1)[1]
+NATIVE_ABSTRACT["position_with_ref.lat"] = lambda m, a, b: ADSB.position_with_ref(m, a, b)[0]
+NATIVE_ABSTRACT["position_with_ref.lon"] = lambda m, a, b: ADSB.position_with_ref(m, a, b)[1]
 
 from contracts.c14 import infer_abstract, callsign_opaque
 
@@ -68,7 +80,7 @@ def new_decoder():
     return new_object(DEC.Decode, acs={}, lat0=None, lon0=None, t=0, cache_timeout=60, dumpto=None)
 
 
-TCQ = [0, 2, 6, 11, 19, 21, 28, 29, 31]
+TCQ = [2, 6, 11, 19, 31]       # (the induction step below covers every type code from every record state)
 
 # MB fields (hex) that bds.infer classifies as the given class (None = random payload); classes 7 / 8
 # (BDS44 / BDS45) are never reported with mrar=False: the abstract contract allows them, natively they
@@ -198,3 +210,197 @@ def trajectory_positions_accurate(seed, scenario):
             dl = (rec["lon"] - lon_n + 180) % 360 - 180
             assert abs(dl) <= 0.001 * max(1.0, 1 / max(math.cos(math.radians(lat)), 0.05)) * 3, \
                 "stored longitude within a few quantisation steps of the true position"
+
+
+# ------------------------------------------------------------------------------------------------------------
+# Induction over histories: one call from an ARBITRARY table entry satisfying the invariant INV.
+#   base:  a record created by process_raw for an unknown address satisfies INV (first clause of the step
+#          harness with known=False);
+#   step:  from any record satisfying INV, one more message of arbitrary content (ADS-B of every type code, or a
+#          Comm-B reply of every inference class) neither raises nor leaves INV, and the staleness rule holds for
+#          the sender and for an untouched bystander.
+# INV is an over-approximation of the reachable records: only the fields process_raw ever READS are constrained.
+BASE_KEYS = ["live", "call", "lat", "lon", "alt", "gs", "trk", "roc", "tas", "roll", "rtrk", "ias", "mach", "hdg",
+             "ver", "HPL", "RCu", "RCv", "HVE", "VVE", "Rc", "VPL", "EPU", "VEPU", "HFOMr", "VFOMr", "PE_RCu",
+             "PE_VPL", "hum44", "p44", "temp44", "turb44", "wind44"]
+
+
+def record(icao, t_last, tc_last):
+    ac = {}
+    for k in BASE_KEYS:
+        ac[k] = None
+    ac["tc"] = tc_last
+    ac["icao"] = icao
+    ac["t"] = t_last
+    ac["live"] = int(t_last)
+    return ac
+
+
+def inv(ac):
+    """the record invariant (what process_raw relies on when it reads a record)"""
+    ok = ac["icao"] == "ABCDEF" or ac["icao"] == "012345"
+    ok = ok and ac["live"] == int(ac["t"])
+    if "tpos" in ac:
+        ok = ok and ac["lat"] is not None and ac["lon"] is not None and ac["tpos"] <= ac["t"]
+    ok = ok and (("t0" in ac) == (0 in ac)) and (("t1" in ac) == (1 in ac))
+    if "t0" in ac:
+        ok = ok and ac["t0"] <= ac["t"] and len(ac[0]) == 28
+    if "t1" in ac:
+        ok = ok and ac["t1"] <= ac["t"] and len(ac[1]) == 28
+    v = ac["ver"]
+    ok = ok and (v is None or (0 <= v and v <= 7))
+    if "nic_s" in ac:
+        ok = ok and 0 <= ac["nic_s"] and ac["nic_s"] <= 1
+    if "nic_a" in ac:
+        ok = ok and 0 <= ac["nic_a"] and ac["nic_a"] <= 1
+    if "nic_bc" in ac:
+        ok = ok and 0 <= ac["nic_bc"] and ac["nic_bc"] <= 1
+    return ok
+
+
+def state_record(t_last, tc_last, has_tpos, pair, ver, nic, lat, lon, dtpos, dt0, dt1, m0, m1, nic_s, nic_a, nic_bc):
+    """a record in an arbitrary state allowed by INV, selected by the case parameters"""
+    ac = record("ABCDEF", t_last, tc_last)
+    if has_tpos:
+        ac["tpos"] = t_last - dtpos
+        ac["lat"] = lat
+        ac["lon"] = lon
+    if pair == 0 or pair == 2:
+        ac[0] = m0
+        ac["t0"] = t_last - dt0
+    if pair == 1 or pair == 2:
+        ac[1] = m1
+        ac["t1"] = t_last - dt1
+    ac["ver"] = ver
+    if nic == 1 or nic == 3:
+        ac["nic_s"] = nic_s
+    if nic == 2 or nic == 3:
+        ac["nic_a"] = nic_a
+        ac["nic_bc"] = nic_bc
+    return ac
+
+
+STATE_INPUTS = {"has_tpos": Choice(False, True), "pair": Choice(-1, 0, 1, 2, quick=[-1, 1, 2]),
+                "ver": Choice(None, 0, 1, 2, 5, quick=[None, 1, 2]),
+                "nic": Choice(0, 1, 2, 3, quick=[0, 3]),
+                "lat": RealRange(-90, 90), "lon": RealRange(-180, 360), "dtpos": RealRange(0, 1000),
+                "dt0": RealRange(0, 1000), "dt1": RealRange(0, 1000), "m0": HexStr(28), "m1": HexStr(28),
+                "nic_s": IntRange(0, 1), "nic_a": IntRange(0, 1), "nic_bc": IntRange(0, 1),
+                "t_last": RealRange(0, 100000), "tc_last": IntRange(0, 31), "d": RealRange(0, 400),
+                "dnow": RealRange(0, 400), "live_b": IntRange(0, 100400)}
+
+
+@harness("C17", inputs={"tc": Choice(*range(32)), "r": BinStr(51), "p": BinStr(24), "case": BinStr(28),
+                         "t": RealRange(0, 100000), "dnow": RealRange(0, 400)},
+         functions=[D + "process_raw", D + "get_aircraft"], body_of=[D + "process_raw", D + "get_aircraft"],
+         overrides=OVR, idealised=True)
+def adsb_base_establishes_invariant(tc, r, p, case, t, dnow):
+    dec = new_decoder()
+    m = adsb_frame("A", bits_of(tc, 5) + r, p, case)
+    o = outcome(dec.process_raw, [t], [m], [], [], t + dnow)
+    assert o == ("ret", None), "process_raw does not raise on the first message of an aircraft"
+    acs = dec.get_aircraft()
+    if "ABCDEF" in acs:
+        assert inv(acs["ABCDEF"]), "a freshly created record is inside the invariant (induction base)"
+
+
+@harness("C17", inputs=dict(STATE_INPUTS, tc=Choice(*range(32), quick=[0, 2, 6, 11, 19, 29, 31]), ra=BinStr(16),
+                            oe=Choice(0, 1), rb=BinStr(34), p=BinStr(24), case=BinStr(28)),
+         functions=[D + "process_raw", D + "get_aircraft"], body_of=[D + "process_raw", D + "get_aircraft"],
+         overrides=OVR, idealised=True, timeout={"quick": 120000, "thorough": 600000})
+def adsb_step_preserves_invariant(has_tpos, pair, ver, nic, lat, lon, dtpos, dt0, dt1, m0, m1, nic_s, nic_a, nic_bc,
+                                  t_last, tc_last, d, dnow, live_b, tc, ra, oe, rb, p, case):
+    # (the CPR format bit, ME bit 22, is a case parameter so that the slot the message is filed under is concrete)
+    r = ra + bits_of(oe, 1) + rb
+    dec = new_decoder()
+    acs0 = {"012345": record("012345", live_b, 0)}
+    acs0["012345"]["live"] = live_b
+    acs0["012345"]["t"] = live_b
+    acs0["ABCDEF"] = state_record(t_last, tc_last, has_tpos, pair, ver, nic, lat, lon, dtpos, dt0, dt1, m0, m1,
+                                  nic_s, nic_a, nic_bc)
+    assert inv(acs0["ABCDEF"]), "(the case parameters describe records inside the invariant)"
+    dec.acs = acs0
+    m = adsb_frame("A", bits_of(tc, 5) + r, p, case)
+    t = t_last + d
+    tnow = t + dnow
+    assume(live_b <= tnow)
+    o = outcome(dec.process_raw, [t], [m], [], [], tnow)
+    assert o == ("ret", None), "from any record inside the invariant, process_raw does not raise on a DF17 message of arbitrary content"
+    acs = dec.get_aircraft()
+    for k in acs:
+        assert k == "ABCDEF" or k == "012345", "table keys stay canonical upper-case addresses"
+    if dnow <= 59:
+        assert "ABCDEF" in acs, "the sender is listed when heard within the last 59 s"
+    if dnow > 61:
+        assert "ABCDEF" not in acs, "the sender is absent once silent for more than 61 s"
+    assert ("012345" in acs) == (tnow - live_b <= 60), "a bystander is kept exactly while tnow - live <= cache timeout"
+    if "ABCDEF" in acs:
+        rec = acs["ABCDEF"]
+        assert inv(rec), "the sender's record is inside the invariant again (induction step)"
+        assert rec["t"] == t, "the record carries the time of the message"
+        # plumbing of the accuracy clause: a stored position is the decode of THIS message - against the previous
+        # fix when that is younger than 180 s, else against the opposite-parity frame heard less than 10 s before,
+        # with this message as the newer one - and is otherwise left alone
+        unchanged = has_tpos and rec["lat"] == lat and rec["lon"] == lon
+        if "tpos" in rec and rec["tpos"] == t:
+            # a position may have been stored by this call (or t coincides with the time of the previous fix)
+            same_time = has_tpos and d == 0 and dtpos == 0
+            ok = same_time and unchanged
+            if 5 <= tc and tc <= 18:
+                odd = oe == 1
+                if has_tpos and d + dtpos < 180:
+                    want = position_with_ref_abstract(m, lat, lon)
+                    ok = ok or (rec["lat"] == want[0] and rec["lon"] == want[1])
+                elif pair == 2 or (pair == 0 and odd) or (pair == 1 and not odd):
+                    told = (t_last - dt0) if odd else (t_last - dt1)
+                    me, mo = (m0, m) if odd else (m, m1)
+                    te, to = (told, t) if odd else (t, told)
+                    if t - told < 10 and abstract_int("position_outcome", 0, 2, me, mo, te, to) == 2:
+                        ok = ok or (rec["lat"] == abstract_real("position.lat", -91, 91, me, mo, te, to) and
+                                    rec["lon"] == abstract_real("position.lon", -361, 721, me, mo, te, to))
+            assert ok, ("a position stored by this call is position_with_ref(this message, previous fix younger than "
+                        "180 s), else position(even, odd) of this message and the opposite-parity frame heard less "
+                        "than 10 s before, this message being the newer one")
+        else:
+            assert ("tpos" in rec) == has_tpos, "no fix appears or disappears without a position decode"
+            if has_tpos:
+                assert unchanged and rec["tpos"] == t_last - dtpos, "a record that stores no new position keeps the old one"
+
+
+# (the Comm-B branch reads no optional field of the record: two extreme states, every optional key absent / present)
+COMMB_STATE = dict(STATE_INPUTS, has_tpos=Choice(False, True), pair=Choice(-1, 2), ver=Choice(None, 2), nic=Choice(0, 3))
+
+
+@harness("C17", inputs=dict(COMMB_STATE, head=BinStr(27), mb=BinStr(56), case=BinStr(28), df21=Choice(False, True),
+                            cls=Choice(*range(12)), known=Choice(True, False)),
+         functions=[D + "process_raw"], body_of=[D + "process_raw", D + "get_aircraft"], overrides=OVR, idealised=True,
+         timeout={"quick": 120000, "thorough": 600000}, sampler=sample_commb, native_optional=True)
+def commb_step_preserves_invariant(has_tpos, pair, ver, nic, lat, lon, dtpos, dt0, dt1, m0, m1, nic_s, nic_a, nic_bc,
+                                   t_last, tc_last, d, dnow, live_b, head, mb, case, df21, cls, known):
+    # extreme states only: all optional keys absent, or all present
+    assume((has_tpos and pair == 2 and ver == 2 and nic == 3) or (not has_tpos and pair == -1 and ver is None and nic == 0))
+    dec = new_decoder()
+    acs0 = {"012345": record("012345", live_b, 0)}
+    acs0["012345"]["live"] = live_b
+    acs0["012345"]["t"] = live_b
+    if known:
+        acs0["ABCDEF"] = state_record(t_last, tc_last, has_tpos, pair, ver, nic, lat, lon, dtpos, dt0, dt1, m0, m1,
+                                      nic_s, nic_a, nic_bc)
+    dec.acs = acs0
+    cb = commb_frame("A", df21, head, mb, case)
+    assume(abstract_int("infer_class", 0, 11, cb, False) == cls)
+    t = t_last + d
+    tnow = t + dnow
+    assume(live_b <= tnow)
+    o = outcome(dec.process_raw, [], [], [t], [cb], tnow)
+    assert o == ("ret", None), "from any record inside the invariant, process_raw does not raise on a Comm-B reply"
+    acs = dec.get_aircraft()
+    if not known:
+        assert "ABCDEF" not in acs, "a Comm-B reply never creates a record"
+    if known and dnow <= 59:
+        assert "ABCDEF" in acs and acs["ABCDEF"]["t"] == t, "a reply of a known aircraft refreshes its record"
+    if known and dnow > 61:
+        assert "ABCDEF" not in acs, "absent once silent for more than 61 s"
+    assert ("012345" in acs) == (tnow - live_b <= 60), "a bystander is kept exactly while tnow - live <= cache timeout"
+    if "ABCDEF" in acs:
+        assert inv(acs["ABCDEF"]), "the record is inside the invariant again (induction step)"
